@@ -62,6 +62,29 @@ def run(chk, replay=None):
                     chk.violation({"class": "parameters", "what": "one name at types %s / %s: %s" % (ta, tb, x[:100])},
                                   {"cmd": "core", "line": "(params %s)" % quote(text), "program": text, "implementation": x, "expected": "accepted with one entry" if ok else "rejected",
                                    "broken": "a parameter name used at two sites must have one type (and is reported once)"})
+    # parameters used only in functions that main never calls — written above main, BELOW main, or both: they are reported and
+    # need an argument like any other (the item order of a program carries no meaning)
+    extra = []
+    for g in [g for g in progs if "fn main" in g.text][: (40 if chk.tier == "quick" else 400)]:
+        r = chk.sub_rng("below/" + g.label)
+        pgb = progen.ProgGen(r, {}, 5)
+        t = pgb.small_ty(1)
+        v = gen.gen_val(r, t)
+        where = r.choice(["below", "below", "above", "both"])
+        fb = "\nfn below_main_%d() -> %s { param::BELOW }\n" % (len(extra), gen.ty_src(t))
+        fa = "fn above_main_%d() -> %s { param::ABOVE }\n" % (len(extra), gen.ty_src(t))
+        if where == "below":
+            q = Prog(g.text + fb, list(g.witnesses), g.label + "/below", params=list(g.params) + [("BELOW", t, v)])
+        elif where == "above":
+            q = Prog(fa + g.text, list(g.witnesses), g.label + "/above", params=list(g.params) + [("ABOVE", t, v)])
+        else:
+            q = Prog(fa + g.text + fb, list(g.witnesses), g.label + "/both", params=list(g.params) + [("ABOVE", t, v), ("BELOW", t, v)])
+        for a in ("fixed", "expect"):
+            if hasattr(g, a):
+                setattr(q, a, getattr(g, a))
+        chk.count("params.uncalled-function.%s" % where)
+        extra.append(q)
+    progs = progs + extra
     # (a) parameters() reports exactly the param:: occurrences
     res = impl("core", ["(params %s)" % quote(g.text) for g in progs])
     ok_progs = []
